@@ -1,9 +1,33 @@
-"""C03 - references handed out under a guard never dangle; freed memory is never touched (mode B ledger + bulk construction)."""
+"""C03 - references handed out under a guard never dangle; freed memory is never touched (mode B ledger + bulk construction
++ bounded interleavings of readers holding guards with retiring writers)."""
 from ._seq import run_property
+from ._conc import conc_extra
+from ..concheck import ConcScenario
+
+MEM = ('use-after-free', 'double-free', 'retire-freed', 'double-retire', 'retire-null', 'null-deref', 'dropped-under-guard', 'bad-downcast', 'panic', 'unreachable')
+
+
+def conc(tier):
+    th = tier == 'thorough'
+    tree = list(range(10))
+    S = [
+        # a reader that pins while a resize is copying / retiring the bin it is about to read
+        ConcScenario('resize/insert-vs-get-copied-node', hasher='identity', capacity=2, prefill=[0, 4], threads=[[('insert', 1)], [('get', 0)]], preemptions=2),
+        ConcScenario('resize/insert-vs-get-reused-node', hasher='identity', capacity=2, prefill=[0, 4], threads=[[('insert', 1)], [('get', 4)]], preemptions=2),
+        # readers against removal / replacement / clear of the entry they hold
+        ConcScenario('list/remove-vs-get', hasher='identity', capacity=2, prefill=[0, 4], threads=[[('remove', 4)], [('get', 4)]], preemptions=2),
+        ConcScenario('list/clear-vs-get', hasher='identity', capacity=2, prefill=[0, 4], threads=[[('clear',)], [('get', 4)]], preemptions=2),
+        # clear losing the lock race on a tree bin against an untreeifying removal / another clear
+        ConcScenario('tree/clear-vs-untreeify', hasher='const', capacity=40, prefill=tree, setup_removes=[0, 1, 2], threads=[[('clear',)], [('compute_none', 3)]], preemptions=2, yield_loads=th),
+        ConcScenario('tree/clear-vs-clear', hasher='samebin', capacity=40, prefill=tree, threads=[[('clear',)], [('clear',)]], preemptions=2, yield_loads=th),
+        ConcScenario('tree/get-vs-untreeify', hasher='const', capacity=40, prefill=tree, setup_removes=[0, 1, 2], threads=[[('get', 7)], [('remove', 3)]], preemptions=2, yield_loads=th),
+    ]
+    return S
 
 
 def run(tier: str) -> int:
     return run_property('C03', tier, 'model_checking',
                         {'operations': 'as C02 (core alphabet in quick) with guard refreshes in the long scripts; every access to a reclaimed object, double retire, double free, retire of a freed object and drop of a value that was handed out under a still-live guard is a violation',
-                         'bulk': 'FromIterator / Extend scenarios are in fv/props/c03_bulk (size hints 0..4, colliding keys)'},
-                        ['reader/retirer interleavings and collector batch sizes are NOT covered (seize under real threads is the trusted base)'])
+                         'bulk': 'FromIterator with every lower size hint 0..n-1 for 3-4 items (thorough 2-5), spread and colliding keys'},
+                        ['collector batch sizes are not modelled: an object is reclaimed as soon as every guard that was active at its retirement is gone (the earliest moment any batch size allows)', 'seize itself is trusted'],
+                        extra=conc_extra('C03', conc, MEM, 'no access to reclaimed memory, no double retire/free'))
